@@ -74,7 +74,8 @@ Definition analyse (length_limit : bool) (line0 : str) : fline :=
   let isCpp := str_eqb firstchar (s "#") in
   let regular := negb (isComment || isNewComment || isCpp || isShort) in
   let isCont := negb (str_isspace cont_char || str_eqb cont_char (s "0")) && regular in
-  let '(excess, line) := if isLong && regular then (bang :: from 72 line0, firstn 72 line0 ++ [nl])
+  (* excess_line = "! " + line[72:] *)
+  let '(excess, line) := if isLong && regular then (bang :: " "%char :: from 72 line0, firstn 72 line0 ++ [nl])
                           else ([], line0) in
   (* __convert *)
   let code := if 6 <? length line then from 6 line else [nl] in
@@ -84,14 +85,22 @@ Definition analyse (length_limit : bool) (line0 : str) : fline :=
     else if isOMP then bang :: slice 1 5 line ++ s " " ++ code
     else if negb (str_isspace label) then label ++ code
     else code in
-  let conv := if isLong && regular then ljust 72 (rstrip conv) ++ excess else conv in
+  (* a long line that ends in an inline comment within column 72 loses what lies beyond column 72 *)
+  let '(conv, excess) :=
+    if isLong && regular then
+      let c := rstrip conv in
+      match inline_comment_start c with
+      | None => (ljust 72 c ++ excess, excess)
+      | Some _ => (c ++ [nl], [nl])
+      end
+    else (conv, excess) in
   {| f_conv := conv; f_regular := regular; f_cont := isCont; f_long := isLong; f_omp := isOMP;
      f_excess := excess |}.
 
 Definition continue_line (f : fline) : fline :=
   let skip := if f_omp f then 5 else 0 in   (* len("!$omp") *)
   let conv :=
-    if negb (f_long f && f_regular f) then insert_continuation (f_conv f) skip ++ [nl]
+    if negb (f_long f && f_regular f) || str_eqb (f_excess f) [nl] then insert_continuation (f_conv f) skip ++ [nl]
     else ljust 72 (insert_continuation (firstn 72 (f_conv f)) skip) ++ f_excess f in
   {| f_conv := conv; f_regular := f_regular f; f_cont := f_cont f; f_long := f_long f; f_omp := f_omp f;
      f_excess := f_excess f |}.
